@@ -299,6 +299,10 @@ package parser
 //@ func (*lexer).lexSimpleCmd
 //@   site SUBST = call parser.(*lexer).subst
 //@   ensures[C17] after-a-substitution-a-pipeline-starts-again: site(SUBST) && siteret(SUBST) ==> returnsmethod("lexPipeline")
+//@   site NAMEOUT = call parser.(*lexer).emit#4
+//@   ensures[C17] after-the-command-name-only-its-arguments-follow: site(NAMEOUT) ==> returnsmethod("lexCmdSuffix")
+//@   site PREFIXOUT = call parser.(*lexer).emit#1
+//@   ensures[C17] after-an-assignment-word-the-prefix-continues: site(PREFIXOUT) ==> returnsmethod("lexCmdPrefix")
 //@   site ISNAME = call parser.(*lexer).isName
 //@   assert[C03] at call parser.(*lexer).emit#2: a-function-name-is-a-name: arg1 == NAME && site(ISNAME) && siteret(ISNAME)
 //@   site ASSIGN = call parser.(*lexer).isAssign
@@ -474,6 +478,7 @@ package parser
 //@   ensures[C04] failed-read-keeps-position: old(len(l.aliases)) == 0 && result1 != nil ==> l.line == old(l.line) && l.col == old(l.col)
 //@   ensures[C04] alias-text-has-no-position: old(len(l.aliases)) != 0 && len(l.aliases) != 0 ==> l.line == old(l.line) && l.col == old(l.col) && l.pos == old(l.pos)
 //@   ensures[C17] only-pops: len(l.aliases) <= old(len(l.aliases)) && (forall j: 0 <= j && j < len(l.aliases) ==> l.aliases[j] == old(l.aliases[j]))
+//@   ensures[C17] exhausted-expansions-are-popped: old(len(l.aliases)) != 0 ==> (forall j: j == len(l.aliases) - 1 && j >= 0 ==> old(rpos(l.aliases[j].value) < len(rsrc(l.aliases[j].value))))
 //@   ensures[C10] read-error-recorded: result1 != nil && result1 != io.EOF ==> l.err != nil
 //@   ensures[C10] first-error-kept: old(l.err) != nil ==> l.err == old(l.err)
 //@   ensures[C10] slot-holds-the-read-error: old(l.err) == nil && l.err != nil ==> l.err == result1
